@@ -35,7 +35,7 @@ m = {
         "source_commits": HOOK_COMMITS,
         "add_only": True,
     },
-    "engines": [{"name": "vcheck", "path": "/verif/harness", "serves_properties": sorted(CHECKS), "kind_free_text": "runtime monitors: generators with ground truth + reference models/metamorphic relations/fault-counting wrappers over the real binary (child process and in-process job server) and the public library (race detector for C01 and C18)"}],
+    "engines": [{"name": "vcheck", "path": "/verif/harness", "serves_properties": sorted(CHECKS), "kind_free_text": "runtime monitors: generators with ground truth + reference models/metamorphic relations/fault-counting wrappers over the real binary (child process and in-process job server) and the public library (harness under the race detector for C01 and C18; race-detector build of the program for C02, C05, C13)"}],
     "checks": checks,
     "not_applicable": na,
     "notes": "All checks rebuild hr (tag verif) and the harness from /repo's working tree on every run. VERIF_SEED selects the case list. Exit 3 = the check itself could not observe anything (build failure); never a pass.",
